@@ -1,0 +1,51 @@
+//go:build verif
+
+package statedb
+
+import (
+	"math/big"
+
+	"github.com/ethereum/go-ethereum/common"
+)
+
+// Ghost compositions for the deductive checker (never compiled into the node): a mutator followed by the Revert of the journal
+// entries it appended, youngest first - exactly what journal.Revert (proved: it calls every entry's own Revert in that order) does
+// for a snapshot taken right before the mutator. Proved from the CONTRACTS of the mutators and of the entries' Revert methods.
+
+func verifCreateAccountThenRevert(s *StateDB, addr common.Address) {
+	n := len(s.journal.entries)
+	s.CreateAccount(addr)
+	s.journal.entries[n].Revert(s)
+}
+
+func verifAddBalanceThenRevert(s *StateDB, addr common.Address, amount *big.Int) {
+	n := len(s.journal.entries)
+	s.AddBalance(addr, amount)
+	m := len(s.journal.entries)
+	if m > n {
+		s.journal.entries[m-1].Revert(s)
+	}
+	if m > n+1 {
+		s.journal.entries[m-2].Revert(s)
+	}
+}
+
+func verifSubBalanceThenRevert(s *StateDB, addr common.Address, amount *big.Int) {
+	n := len(s.journal.entries)
+	s.SubBalance(addr, amount)
+	m := len(s.journal.entries)
+	if m > n {
+		s.journal.entries[m-1].Revert(s)
+	}
+	if m > n+1 {
+		s.journal.entries[m-2].Revert(s)
+	}
+}
+
+func verifAddAddressThenRevert(s *StateDB, addr common.Address) {
+	n := len(s.journal.entries)
+	s.AddAddressToAccessList(addr)
+	if len(s.journal.entries) > n {
+		s.journal.entries[n].Revert(s)
+	}
+}
